@@ -77,7 +77,8 @@ class ParserConfig(Config):
         if not self.memoization:
             self.left_recursion = False
 
-        if self.namechars:
+        if self.namechars and self.nameguard is None:
+            # NOTE: name characters imply the guard, an explicit setting decides
             self.nameguard = True
 
         if isinstance(self.semantics, type):
